@@ -132,16 +132,6 @@ pub mod into_metadata_key {
 }
 pub use as_metadata_key::AsMetadataKey;
 pub use into_metadata_key::IntoMetadataKey;
-// http::header::Iter over (name, value) pairs: a ghost sequence of the pairs still to come (A-http-28)
-pub struct HIter<'a> { pub rest: Ghost<Seq<(Seq<char>, Seq<u8>)>>, pub m: &'a HeaderMap }
-impl<'a> HIter<'a> {
-    #[verifier::external_body]
-    pub fn next(&mut self) -> (r: Option<(&'a HeaderName, &'a HeaderValue)>)
-        ensures
-            old(self).rest@.len() == 0 ==> r is None && final(self).rest@ == old(self).rest@,
-            old(self).rest@.len() > 0 ==> (r matches Some(p) && p.0@ == old(self).rest@[0].0 && p.1@ == old(self).rest@[0].1 && final(self).rest@ == old(self).rest@.skip(1)),
-    { unimplemented!() }
-}
 pub struct Iter<'a> { pub inner: HIter<'a> }
 '''
 
